@@ -865,21 +865,38 @@ func checkReportArg(w *World, res *report.RuleResult, key, name string, in ssa.I
 		return
 	}
 	a := call.Common().Args
-	msgOK := false
-	if cst, ok := a[0].(*ssa.Const); ok && cst.Value != nil && len(cst.Value.ExactString()) > 2 {
-		msgOK = true
-	}
-	if _, ok := a[0].(*ssa.Parameter); ok {
-		msgOK = true
-	}
-	posOK := false
-	if ld, ok := a[1].(*ssa.UnOp); ok && ld.Op == token.MUL {
-		if fa, ok := ld.X.(*ssa.FieldAddr); ok && fieldName(fa.X.Type(), fa.Field) == "Position" {
-			posOK = true
+	// a component that is a parameter of the enclosing function (a wrapper such as reportAt(msg, pos)) is
+	// judged by what every static caller passes for it
+	msgOK, posOK := true, true
+	nMsg, nPos := 0, 0
+	w.eachOrigin(in.Parent(), a[0], 0, func(v ssa.Value, dynamicParam bool) {
+		nMsg++
+		if cst, ok := v.(*ssa.Const); ok && cst.Value != nil && len(cst.Value.ExactString()) > 2 {
+			return
 		}
+		if dynamicParam {
+			return // the message handed in through an interface method (goyacc's Error(msg))
+		}
+		msgOK = false
+	})
+	w.eachOrigin(in.Parent(), a[1], 0, func(v ssa.Value, dynamicParam bool) {
+		nPos++
+		if ld, ok := v.(*ssa.UnOp); ok && ld.Op == token.MUL {
+			if fa, ok := ld.X.(*ssa.FieldAddr); ok && fieldName(fa.X.Type(), fa.Field) == "Position" {
+				return
+			}
+		}
+		if c2, ok := v.(*ssa.Call); ok && c2.Common().StaticCallee() != nil && calleeName(c2.Common().StaticCallee()) == "pkg/position.NewPosition" {
+			return
+		}
+		posOK = false
+	})
+	res.Count("report-origins", nPos) // ultimate sites that supply the reported position
+	if nMsg == 0 {
+		msgOK = false
 	}
-	if c2, ok := a[1].(*ssa.Call); ok && c2.Common().StaticCallee() != nil && calleeName(c2.Common().StaticCallee()) == "pkg/position.NewPosition" {
-		posOK = true
+	if nPos == 0 {
+		posOK = false
 	}
 	if len(got) > 160 {
 		got = got[:160] + "…"
@@ -1074,4 +1091,40 @@ func allocFieldStores(a *ssa.Alloc) map[string]ssa.Value {
 		}
 	}
 	return out
+}
+
+
+// eachOrigin calls f for v, or — when v is a parameter of fn — for what every static call of fn in the
+// module passes in its place (followed through up to three wrappers). dynamicParam: v is a parameter
+// of a function nothing calls statically (an interface method implementation).
+func (w *World) eachOrigin(fn *ssa.Function, v ssa.Value, depth int, f func(v ssa.Value, dynamicParam bool)) {
+	prm, ok := v.(*ssa.Parameter)
+	if !ok || fn == nil {
+		f(v, false)
+		return
+	}
+	idx := -1
+	for i, q := range fn.Params {
+		if q == prm {
+			idx = i
+		}
+	}
+	sites := 0
+	if idx >= 0 && depth < 3 {
+		for _, caller := range w.Funcs {
+			for _, b := range caller.Blocks {
+				for _, in := range b.Instrs {
+					ci, ok := in.(ssa.CallInstruction)
+					if !ok || ci.Common().StaticCallee() != fn || idx >= len(ci.Common().Args) {
+						continue
+					}
+					sites++
+					w.eachOrigin(caller, ci.Common().Args[idx], depth+1, f)
+				}
+			}
+		}
+	}
+	if sites == 0 {
+		f(v, true)
+	}
 }
